@@ -1,6 +1,7 @@
-// Harness "g3" (C19): gama-g3's model on generated ECEF networks of GNSS vectors whose points lie on the equator
-// at longitudes 0, 90, 180, 270 degrees (there the north-east-up rotation has entries 0/+-1 through the atan2 /
-// sin / cos contract, so the whole linearisation is exact), with symbolic observation errors.
+// Harness "g3" (C19): gama-g3's model on generated ECEF networks whose points lie on the equator at longitudes 0, 90, 180,
+// 270 degrees (there the north-east-up rotation has entries 0/+-1 through the atan2 / sin / cos contract, and the ellipsoidal
+// height is X or Y minus the semi-major axis, so the whole linearisation is exact), with GNSS vectors, observed coordinates,
+// space distances, height differences and heights, and symbolic observation errors.
 #define private public
 #define protected public
 #include <gnu_gama/g3/g3_model.h>
@@ -21,32 +22,37 @@
 using sx::Real; using qla::Q; using qla::QMat;
 using namespace GNU_gama;
 
-struct GPt { std::string id; Q x, y, z; char status; /* f fixed, a free, c constrained */ int lon; /* 0,1,2,3 quarter turns */ };
-struct GVec { int from, to; QMat L; /* 3x3 lower factor of the covariance */ };
-struct GSpec { std::string name; std::vector<GPt> pts; std::vector<GVec> vecs; std::vector<int> order; };
+struct GPt { std::string id; Q x, y, z; char status; /* f fixed, a free, c constrained */ int lon; /* 0,1,2,3 quarter turns */ Q h; /* ellipsoidal height */ Q geoid; Q mh() const { return h - geoid; } /* the height gama-g3 models: ellipsoidal minus geoid */ };
+// kind: 0 vector, 1 observed xyz, 2 distance, 3 height difference, 4 height
+struct GObs { int kind; int from, to; QMat L; /* 3x3 lower factor of the covariance (vector, xyz) */ Q stdev; int dim() const { return kind <= 1 ? 3 : 1; } };
+struct GSpec { std::string name; std::vector<GPt> pts; std::vector<GObs> obs; std::vector<int> order; };
 
 static const long A_WGS84 = 6378137;
 static GPt eq_point(const std::string& id, int lon, long h, char status) {
-  GPt p; p.id = id; p.status = status; p.lon = lon; Q r = Q(A_WGS84 + h);
+  GPt p; p.id = id; p.status = status; p.lon = lon; p.h = Q(h); p.geoid = Q(lon + 1, 2); Q r = Q(A_WGS84 + h);
   p.x = lon == 0 ? r : lon == 2 ? Q(-r) : Q(0); p.y = lon == 1 ? r : lon == 3 ? Q(-r) : Q(0); p.z = 0; return p;
 }
 static std::string qs(const Q& q) { mpz_class n = q.get_num(), d = q.get_den(); if (d == 1) return n.get_str(); std::ostringstream o; o.precision(17); o << q.get_d(); return o.str(); }
+static Real true_dist(const GPt& a, const GPt& b) { Q d2 = (b.x - a.x) * (b.x - a.x) + (b.y - a.y) * (b.y - a.y) + (b.z - a.z) * (b.z - a.z); return sqrt(sx::constant(d2)); }
 
 static std::string g3_xml(const GSpec& s) {
-  std::ostringstream o;
+  std::ostringstream o; o.precision(17);
   o << "<?xml version=\"1.0\" ?>\n<gnu-gama-data xmlns=\"http://www.gnu.org/software/gama/gnu-gama-data\">\n<g3-model>\n"
     << "<constants><apriori-standard-deviation>1</apriori-standard-deviation><confidence-level>0.95</confidence-level><ellipsoid><id>wgs84</id></ellipsoid></constants>\n";
   for (auto& p : s.pts) {
     const char* tag = p.status == 'f' ? "fixed" : p.status == 'a' ? "free" : "constr";
     o << "<" << tag << "> <n/> <e/> <u/> </" << tag << ">\n";
-    o << "<point> <id>" << p.id << "</id> <x>" << qs(p.x) << "</x> <y>" << qs(p.y) << "</y> <z>" << qs(p.z) << "</z> </point>\n";
+    o << "<point> <id>" << p.id << "</id> <x>" << qs(p.x) << "</x> <y>" << qs(p.y) << "</y> <z>" << qs(p.z) << "</z> <geoid>" << qs(p.geoid) << "</geoid> </point>\n";
   }
-  for (int k : s.order) { const GVec& v = s.vecs[k]; const GPt& a = s.pts[v.from]; const GPt& b = s.pts[v.to];
-    QMat C = qla::mul(v.L, qla::trans(v.L));
-    o << "<obs>\n <vector> <from>" << a.id << "</from> <to>" << b.id << "</to> <dx>" << qs(b.x - a.x) << "</dx> <dy>" << qs(b.y - a.y) << "</dy> <dz>" << qs(b.z - a.z) << "</dz> </vector>\n"
-      << " <cov-mat> <dim>3</dim> <band>2</band>\n";
-    for (int i = 0; i < 3; i++) { for (int j = i; j < 3; j++) o << " <flt>" << qs(C(i, j)) << "</flt>"; o << "\n"; }
-    o << " </cov-mat>\n</obs>\n"; }
+  for (int k : s.order) { const GObs& v = s.obs[k]; const GPt& a = s.pts[v.from]; const GPt& b = s.pts[v.to];
+    o << "<obs>\n";
+    if (v.kind == 0) o << " <vector> <from>" << a.id << "</from> <to>" << b.id << "</to> <dx>" << qs(b.x - a.x) << "</dx> <dy>" << qs(b.y - a.y) << "</dy> <dz>" << qs(b.z - a.z) << "</dz> </vector>\n";
+    if (v.kind == 1) o << " <xyz> <id>" << a.id << "</id> <x>" << qs(a.x) << "</x> <y>" << qs(a.y) << "</y> <z>" << qs(a.z) << "</z> </xyz>\n";
+    if (v.kind <= 1) { QMat C = qla::mul(v.L, qla::trans(v.L)); o << " <cov-mat> <dim>3</dim> <band>2</band>\n"; for (int i = 0; i < 3; i++) { for (int j = i; j < 3; j++) o << " <flt>" << qs(C(i, j)) << "</flt>"; o << "\n"; } o << " </cov-mat>\n"; }
+    if (v.kind == 2) { std::ostringstream d; d.precision(17); d << sx::numeric(true_dist(a, b)); o << " <distance> <from>" << a.id << "</from> <to>" << b.id << "</to> <val>" << d.str() << "</val> <stdev>" << qs(v.stdev) << "</stdev> </distance>\n"; }
+    if (v.kind == 3) o << " <hdiff> <from>" << a.id << "</from> <to>" << b.id << "</to> <val>" << qs(b.mh() - a.mh()) << "</val> <stdev>" << qs(v.stdev) << "</stdev> </hdiff>\n";
+    if (v.kind == 4) o << " <height> <id>" << a.id << "</id> <val>" << qs(a.mh()) << "</val> <stdev>" << qs(v.stdev) << "</stdev> </height>\n";
+    o << "</obs>\n"; }
   o << "</g3-model>\n</gnu-gama-data>\n";
   return o.str();
 }
@@ -62,28 +68,34 @@ static g3::Model* parse_model(const std::string& text, std::string& err) {
 }
 
 struct GRun {
-  std::unique_ptr<g3::Model> model; std::vector<g3::Vector*> vecs;   // in input order
+  std::unique_ptr<g3::Model> model; std::vector<g3::Observation*> obs;   // in input order
   std::map<std::string, std::vector<Real>> xyz;   // adjusted X,Y,Z per point
   std::vector<Real> x, r; Real rtr; int redundancy = 0, defect = 0, rows = 0, cols = 0; bool ok = false; std::string why;
-  QMat A; std::vector<Real> rhs;
+  std::vector<std::vector<Real>> A; std::vector<Real> rhs; std::map<std::string, std::vector<int>> idx;   // N,E,U index per point (0 = not an unknown)
 };
 
-static bool build_g3(GRun& g, const GSpec& s, const std::vector<Real>& err_by_vec /* 3 per vector, indexed by vecs[] */, Adj::algorithm alg) {
+// err: dim() symbols per observation, indexed by the position in spec.obs
+static bool build_g3(GRun& g, const GSpec& s, const std::vector<std::vector<Real>>& err, Adj::algorithm alg) {
   std::string e; g.model.reset(parse_model(g3_xml(s), e));
   if (!g.model) { sx::fail("generated g3 input rejected", e); return false; }
-  for (auto i = g.model->obsdata.begin(), end = g.model->obsdata.end(); i != end; ++i) if (auto* v = dynamic_cast<g3::Vector*>(*i)) g.vecs.push_back(v);
-  if (g.vecs.size() != s.order.size()) { sx::fail("number of vectors read", std::to_string(g.vecs.size())); return false; }
-  for (size_t k = 0; k < g.vecs.size(); k++) { int vi = s.order[k]; g3::Vector* v = g.vecs[k]; v->set_dxyz(v->dx() + err_by_vec[3 * vi], v->dy() + err_by_vec[3 * vi + 1], v->dz() + err_by_vec[3 * vi + 2]); }
+  for (auto i = g.model->obsdata.begin(), end = g.model->obsdata.end(); i != end; ++i) g.obs.push_back(*i);
+  if (g.obs.size() != s.order.size()) { sx::fail("number of observations read", std::to_string(g.obs.size())); return false; }
+  for (size_t k = 0; k < g.obs.size(); k++) { int oi = s.order[k]; const GObs& v = s.obs[oi]; const GPt& a = s.pts[v.from]; const GPt& b = s.pts[v.to]; const std::vector<Real>& ev = err[oi];
+    bool type_ok = true;
+    if (v.kind == 0) { auto* o = dynamic_cast<g3::Vector*>(g.obs[k]); if (o) o->set_dxyz(sx::constant(b.x - a.x) + ev[0], sx::constant(b.y - a.y) + ev[1], sx::constant(b.z - a.z) + ev[2]); else type_ok = false; }
+    if (v.kind == 1) { auto* o = dynamic_cast<g3::XYZ*>(g.obs[k]); if (o) o->set_xyz(sx::constant(a.x) + ev[0], sx::constant(a.y) + ev[1], sx::constant(a.z) + ev[2]); else type_ok = false; }
+    if (v.kind == 2) { auto* o = dynamic_cast<g3::Distance*>(g.obs[k]); if (o) o->set(true_dist(a, b) + ev[0]); else type_ok = false; }
+    if (v.kind == 3) { auto* o = dynamic_cast<g3::HeightDiff*>(g.obs[k]); if (o) o->set(sx::constant(b.mh() - a.mh()) + ev[0]); else type_ok = false; }
+    if (v.kind == 4) { auto* o = dynamic_cast<g3::Height*>(g.obs[k]); if (o) o->set(sx::constant(a.mh()) + ev[0]); else type_ok = false; }
+    if (!type_ok) { sx::fail("observation read with another type", std::to_string(k + 1)); return false; } }
   try {
     g.model->set_algorithm(alg);
     g.model->update_linearization();
     g.rows = g.model->dm_rows; g.cols = g.model->dm_cols;
-    // the design matrix and right-hand side the model built (constants here: rotation entries are 0/+-1)
-    g.A = QMat(g.rows, g.cols); bool rational = true;
-    for (int r = 1; r <= g.rows; r++) { Real* b = g.model->A->begin(r); Real* en = g.model->A->end(r); int* c = g.model->A->ibegin(r);
-      for (; b != en; ++b, ++c) { mpq_class q; if (!sx::is_rational(*b, &q)) { rational = false; q = mpq_class(sx::numeric(*b)); } g.A(r - 1, *c - 1) += q; } }
-    sx::check_true(rational || !sx::symbolic_mode(), s.name + " design matrix entries are exact rationals at the special geometry", "");
+    g.A.assign(g.rows, std::vector<Real>(g.cols, sx::rat(0)));
+    for (int r = 1; r <= g.rows; r++) { Real* b = g.model->A->begin(r); Real* en = g.model->A->end(r); int* c = g.model->A->ibegin(r); for (; b != en; ++b, ++c) g.A[r - 1][*c - 1] = g.A[r - 1][*c - 1] + *b; }
     for (int r = 1; r <= g.rows; r++) g.rhs.push_back(g.model->rhs(r));
+    for (auto it = g.model->points->begin(); it != g.model->points->end(); ++it) { g3::Point* p = *it; g.idx[p->name] = {(int)p->N.index(), (int)p->E.index(), (int)p->U.index()}; }
     g.model->update_adjustment();
     const Vec<>& x = g.model->adj->x(); for (int i = 1; i <= g.cols; i++) g.x.push_back(x(i));
     const Vec<>& res = g.model->adj->r(); for (int i = 1; i <= g.rows; i++) g.r.push_back(res(i));
@@ -100,39 +112,62 @@ static bool build_g3(GRun& g, const GSpec& s, const std::vector<Real>& err_by_ve
   return true;
 }
 
+// the local frame at an equator point: n = (0,0,1), e = (-sin l, cos l, 0), u = (cos l, sin l, 0)
+static void frame(const GPt& p, Q n[3], Q e[3], Q u[3]) { Q c = p.lon == 0 ? 1 : p.lon == 2 ? -1 : 0, s = p.lon == 1 ? 1 : p.lon == 3 ? -1 : 0; n[0] = 0; n[1] = 0; n[2] = 1; e[0] = -s; e[1] = c; e[2] = 0; u[0] = c; u[1] = s; u[2] = 0; }
+
+static std::vector<std::vector<Real>> sym_errors(const GSpec& s, bool zero = false) {
+  std::vector<std::vector<Real>> err; int k = 0;
+  for (auto& o : s.obs) { std::vector<Real> ev; for (int c = 0; c < o.dim(); c++) { if (zero) { ev.push_back(sx::rat(0)); continue; } Real e = sx::input("e" + std::to_string(++k)); sx::assume_range(e, Q(-1, 100), Q(1, 100)); ev.push_back(e); } err.push_back(ev); }
+  return err;
+}
+
 static void case_g3(const GSpec& s0) {
   GSpec s = s0;
-  std::vector<Real> errs; for (size_t k = 0; k < s.vecs.size() * 3; k++) { Real e = sx::input("e" + std::to_string(k + 1)); sx::assume_range(e, Q(-1, 100), Q(1, 100)); errs.push_back(e); }
+  std::vector<std::vector<Real>> errs = sym_errors(s);
   Adj::algorithm algs[] = {Adj::envelope, Adj::cholesky, Adj::gso};
   std::vector<std::unique_ptr<GRun>> runs;
   for (auto alg : algs) { runs.emplace_back(new GRun); if (!build_g3(*runs.back(), s, errs, alg)) return; }
   GRun& g = *runs[0];
   sx::check_true(g.ok, s.name + " adjusted", g.why); if (!g.ok) return;
-  // oracle on the model's own project equations: weights from the specification, exact null space
   int m = g.rows, n = g.cols;
-  sx::check_true(m == 3 * (int)s.vecs.size(), s.name + " three equations per vector", std::to_string(m));
+  int expect_m = 0; for (auto& o : s.obs) expect_m += o.dim();
+  sx::check_true(m == expect_m, s.name + " number of equations", std::to_string(m));
   int expect_n = 0; for (auto& p : s.pts) if (p.status != 'f') expect_n += 3;
-  sx::check_true(n == expect_n, s.name + " three unknowns per non-fixed point", std::to_string(n));
-  QMat P(m, m); for (size_t k = 0; k < s.order.size(); k++) { const GVec& v = s.vecs[s.order[k]]; QMat Ci = qla::inverse(qla::mul(v.L, qla::trans(v.L))); for (int i = 0; i < 3; i++) for (int j = 0; j < 3; j++) P(3 * k + i, 3 * k + j) = Ci(i, j); }
-  int defect = qla::nullspace(g.A).c;
-  sx::check_true(g.defect == defect, s.name + " defect equals the nullity of the design matrix", std::to_string(g.defect) + " vs " + std::to_string(defect));
-  sx::check_true(g.redundancy == m - n + defect, s.name + " redundancy = equations - unknowns + defect", std::to_string(g.redundancy));
-  // design matrix: a vector row carries -R_from and +R_to (rotation NEU -> XYZ has 0/+-1 entries at these points): every row has entries only 0/+-1
-  bool unit = true; for (auto& v : g.A.a) if (v != 0 && v != 1 && v != -1) unit = false; sx::check_true(unit, s.name + " design matrix entries are 0/+-1", qla::show(g.A));
-  // right-hand side = (observed - computed) * 1000 = error * 1000
-  for (size_t k = 0; k < s.order.size(); k++) for (int c = 0; c < 3; c++) sx::check_eq(g.rhs[3 * k + c], errs[3 * s.order[k] + c] * sx::rat(1000), s.name + " right-hand side of vector " + std::to_string(k + 1) + " component " + std::to_string(c + 1));
+  sx::check_true(n == expect_n, s.name + " three unknowns per non-fixed point", std::to_string(n)); if (m != expect_m || n != expect_n) return;
+  // expected design matrix, right-hand side and weights, stated from the observation equations
+  std::vector<std::vector<Real>> E(m, std::vector<Real>(n, sx::rat(0))); std::vector<Real> rhs(m, sx::rat(0)); QMat P(m, m); bool rational = true;
+  auto put = [&](int row, const GPt& p, const Real gx[3], Real sign) {       // gradient with respect to X,Y,Z of the point -> coefficients of its n,e,u
+    Q nn[3], ee[3], uu[3]; frame(p, nn, ee, uu); const std::vector<int>& ix = g.idx[p.id];
+    Real cn = sx::rat(0), ce = sx::rat(0), cu = sx::rat(0); for (int t = 0; t < 3; t++) { cn = cn + gx[t] * sx::constant(nn[t]); ce = ce + gx[t] * sx::constant(ee[t]); cu = cu + gx[t] * sx::constant(uu[t]); }
+    if (ix[0]) E[row][ix[0] - 1] = E[row][ix[0] - 1] + sign * cn; if (ix[1]) E[row][ix[1] - 1] = E[row][ix[1] - 1] + sign * ce; if (ix[2]) E[row][ix[2] - 1] = E[row][ix[2] - 1] + sign * cu; };
+  int row = 0;
+  for (size_t k = 0; k < s.order.size(); k++) { const GObs& v = s.obs[s.order[k]]; const GPt& a = s.pts[v.from]; const GPt& b = s.pts[v.to]; const std::vector<Real>& ev = errs[s.order[k]];
+    for (auto* p : {&a, &b}) { const std::vector<int>& ix = g.idx[p->id]; bool unk = p->status != 'f'; sx::check_true((ix[0] > 0) == unk && (ix[1] > 0) == unk && (ix[2] > 0) == unk, s.name + " point " + p->id + ": n,e,u are unknowns exactly when the point is not fixed", ""); }
+    if (v.kind <= 1) { QMat Ci = qla::inverse(qla::mul(v.L, qla::trans(v.L))); for (int i = 0; i < 3; i++) for (int j = 0; j < 3; j++) P(row + i, row + j) = Ci(i, j);
+      for (int c = 0; c < 3; c++) { Real gx[3] = {sx::rat(c == 0), sx::rat(c == 1), sx::rat(c == 2)}; if (v.kind == 0) { put(row + c, a, gx, sx::rat(-1)); put(row + c, b, gx, sx::rat(1)); } else put(row + c, a, gx, sx::rat(1)); rhs[row + c] = ev[c] * sx::rat(1000); } }
+    else { P(row, row) = 1 / (v.stdev * v.stdev); rhs[row] = ev[0] * sx::rat(1000);
+      if (v.kind == 2) { Real d = true_dist(a, b); Real gx[3] = {sx::constant(b.x - a.x) / d, sx::constant(b.y - a.y) / d, sx::constant(b.z - a.z) / d}; put(row, a, gx, sx::rat(-1)); put(row, b, gx, sx::rat(1)); if (!sx::is_rational(d)) rational = false; }
+      if (v.kind == 3) { if (g.idx[a.id][2]) E[row][g.idx[a.id][2] - 1] = sx::rat(-1); if (g.idx[b.id][2]) E[row][g.idx[b.id][2] - 1] = sx::rat(1); }
+      if (v.kind == 4) { if (g.idx[a.id][2]) E[row][g.idx[a.id][2] - 1] = sx::rat(1); } }
+    row += v.dim(); }
+  for (int i = 0; i < m; i++) { sx::check_eq(g.rhs[i], rhs[i], s.name + " right-hand side of equation " + std::to_string(i + 1) + " = 1000 x error"); for (int j = 0; j < n; j++) sx::check_eq(g.A[i][j], E[i][j], s.name + " coefficient " + std::to_string(i + 1) + "," + std::to_string(j + 1)); }
+  // defect and redundancy against the exact null space (when the design matrix is rational)
+  int defect = -1;
+  if (rational) { QMat Aq(m, n); bool ok = true; for (int i = 0; i < m; i++) for (int j = 0; j < n; j++) { mpq_class q; if (!sx::is_rational(E[i][j], &q)) ok = false; else Aq(i, j) = q; }
+    if (ok) { defect = qla::nullspace(Aq).c; sx::check_true(g.defect == defect, s.name + " defect equals the nullity of the design matrix", std::to_string(g.defect) + " vs " + std::to_string(defect)); sx::check_true(g.redundancy == m - n + defect, s.name + " redundancy = equations - unknowns + defect", std::to_string(g.redundancy)); } }
+  if (defect < 0) { bool fixed = false; for (auto& p : s.pts) if (p.status == 'f') fixed = true; if (fixed) { sx::check_true(g.defect == 0, s.name + " no defect with a fixed point and distances", std::to_string(g.defect)); sx::check_true(g.redundancy == m - n, s.name + " redundancy = equations - unknowns", ""); } }
   // optimality and residuals
-  for (int i = 0; i < m; i++) { Real ax = sx::rat(0); for (int j = 0; j < n; j++) if (g.A(i, j) != 0) ax = ax + sx::constant(g.A(i, j)) * g.x[j]; sx::check_eq(g.r[i], ax - g.rhs[i], s.name + " residual = Ax - b, row " + std::to_string(i + 1)); }
+  for (int i = 0; i < m; i++) { Real ax = sx::rat(0); for (int j = 0; j < n; j++) ax = ax + E[i][j] * g.x[j]; sx::check_eq(g.r[i], ax - rhs[i], s.name + " residual = Ax - b, row " + std::to_string(i + 1)); }
   std::vector<Real> Pr(m, sx::rat(0)); for (int i = 0; i < m; i++) for (int k = 0; k < m; k++) if (P(i, k) != 0) Pr[i] = Pr[i] + sx::constant(P(i, k)) * g.r[k];
-  for (int j = 0; j < n; j++) { Real t = sx::rat(0); for (int i = 0; i < m; i++) if (g.A(i, j) != 0) t = t + sx::constant(g.A(i, j)) * Pr[i]; sx::check_zero(t, s.name + " normal equation " + std::to_string(j + 1)); }
+  for (int j = 0; j < n; j++) { Real t = sx::rat(0); for (int i = 0; i < m; i++) t = t + E[i][j] * Pr[i]; sx::check_zero(t, s.name + " normal equation " + std::to_string(j + 1)); }
   Real vpv = sx::rat(0); for (int i = 0; i < m; i++) vpv = vpv + g.r[i] * Pr[i]; sx::check_eq(g.rtr, vpv, s.name + " sum of squares");
-  // consistent part: the adjusted coordinates differ from the generating ones by terms that vanish with the errors (homogeneous linear in e)
-  for (auto& p : s.pts) { auto& c = g.xyz[p.id]; Q gen[3] = {p.x, p.y, p.z};
-    if (p.status == 'f') for (int k = 0; k < 3; k++) sx::check_eq(c[k], sx::constant(gen[k]), s.name + " fixed point " + p.id + " unchanged"); }
-  // adjusted vectors: observed + residual = difference of adjusted coordinates
-  for (size_t k = 0; k < s.order.size(); k++) { const GVec& v = s.vecs[s.order[k]]; const GPt& a = s.pts[v.from]; const GPt& b = s.pts[v.to];
-    Q gen[3] = {b.x - a.x, b.y - a.y, b.z - a.z};
-    for (int c = 0; c < 3; c++) sx::check_eq(g.xyz[b.id][c] - g.xyz[a.id][c], sx::constant(gen[c]) + errs[3 * s.order[k] + c] + g.r[3 * k + c] / sx::rat(1000), s.name + " adjusted vector " + std::to_string(k + 1) + " = difference of adjusted coordinates, component " + std::to_string(c + 1)); }
+  for (auto& p : s.pts) { auto& c = g.xyz[p.id]; Q gen[3] = {p.x, p.y, p.z}; if (p.status == 'f') for (int k = 0; k < 3; k++) sx::check_eq(c[k], sx::constant(gen[k]), s.name + " fixed point " + p.id + " unchanged"); }
+  // adjusted linear observations: observed + residual = the same function of the adjusted coordinates
+  row = 0;
+  for (size_t k = 0; k < s.order.size(); k++) { const GObs& v = s.obs[s.order[k]]; const GPt& a = s.pts[v.from]; const GPt& b = s.pts[v.to]; const std::vector<Real>& ev = errs[s.order[k]];
+    if (v.kind == 0) { Q gen[3] = {b.x - a.x, b.y - a.y, b.z - a.z}; for (int c = 0; c < 3; c++) sx::check_eq(g.xyz[b.id][c] - g.xyz[a.id][c], sx::constant(gen[c]) + ev[c] + g.r[row + c] / sx::rat(1000), s.name + " adjusted vector " + std::to_string(k + 1) + " = difference of adjusted coordinates, component " + std::to_string(c + 1)); }
+    if (v.kind == 1) { Q gen[3] = {a.x, a.y, a.z}; for (int c = 0; c < 3; c++) sx::check_eq(g.xyz[a.id][c], sx::constant(gen[c]) + ev[c] + g.r[row + c] / sx::rat(1000), s.name + " adjusted observed coordinate " + std::to_string(k + 1) + " = adjusted coordinate, component " + std::to_string(c + 1)); }
+    row += v.dim(); }
   // all algorithms agree
   for (size_t a = 1; a < runs.size(); a++) { GRun& h = *runs[a]; std::string t = s.name + " algorithm " + std::to_string(a) + " vs envelope";
     sx::check_true(h.ok, t + " adjusted", h.why); if (!h.ok) continue;
@@ -151,12 +186,15 @@ static void case_g3(const GSpec& s0) {
     if (parsed) { AdjInputData* in = nullptr; for (auto* o : objects) { if (auto* d = dynamic_cast<DataObject::AdjInput*>(o)) { in = d->data; d->data = nullptr; } delete o; }
       sx::check_true(in != nullptr, s.name + " dump contains adj-input-data", "");
       if (in) { Adj adj; adj.set(in); adj.set_algorithm(Adj::cholesky); const Vec<>& x = adj.x();
-        sx::check_true(x.dim() == n, s.name + " dump: number of unknowns", ""); if (x.dim() == n) for (int j = 1; j <= n; j++) sx::check_eq(x(j), g.x[j - 1], s.name + " dump adjusted by Adj: unknown " + std::to_string(j)); } } }
+        sx::check_true(x.dim() == n, s.name + " dump: number of unknowns", ""); if (x.dim() == n) for (int j = 1; j <= n; j++) {
+          if (rational) sx::check_eq(x(j), g.x[j - 1], s.name + " dump adjusted by Adj: unknown " + std::to_string(j));
+          else { Real d = x(j) - g.x[j - 1];      // irrational coefficients are written with 16 digits: equal to 1e-6 mm
+            sx::check_le(d, sx::rat(1, 1000000), s.name + " dump adjusted by Adj: unknown " + std::to_string(j)); sx::check_le(-d, sx::rat(1, 1000000), s.name + " dump adjusted by Adj: unknown " + std::to_string(j)); } } } } }
   sx::reached("g3");
 }
-// error-free observations reproduce the generating coordinates exactly (concrete run, natively decided)
+// error-free observations reproduce the generating coordinates exactly
 static void case_g3_consistent(const GSpec& s) {
-  std::vector<Real> errs(s.vecs.size() * 3, sx::rat(0));
+  std::vector<std::vector<Real>> errs = sym_errors(s, true);
   GRun g; if (!build_g3(g, s, errs, Adj::envelope)) return; sx::check_true(g.ok, s.name + " adjusted", g.why); if (!g.ok) return;
   for (auto& p : s.pts) { Q gen[3] = {p.x, p.y, p.z}; for (int c = 0; c < 3; c++) sx::check_eq(g.xyz[p.id][c], sx::constant(gen[c]), s.name + " consistent observations reproduce point " + p.id); }
   for (auto& r : g.r) sx::check_zero(r, s.name + " zero residuals");
@@ -169,12 +207,24 @@ static void gen_cases(const sx::Options& opt, std::vector<sx::Case>& cases) {
   auto lfac = [&]() { QMat L(3, 3); for (int i = 0; i < 3; i++) { L(i, i) = rng.range(1, 3); for (int j = 0; j < i; j++) L(i, j) = Q(rng.range(-1, 1), 2); } return L; };
   std::vector<GSpec> specs;
   const char* statuses[] = {"faaa", "fafa", "cccc", "acca", "ffaa"};
-  for (int k = 0; k < (th ? 5 : 3); k++) {
+  int ed[6][2] = {{0,1},{1,2},{2,3},{3,0},{0,2},{1,3}};
+  for (int k = 0; k < (th ? 5 : 3); k++) {      // vectors only (free networks included)
     GSpec s; s.name = std::string("equator4-") + statuses[k];
     for (int i = 0; i < 4; i++) s.pts.push_back(eq_point("P" + std::to_string(i + 1), i, 10 + 7 * i + rng.range(0, 5), statuses[k][i]));
-    int ed[6][2] = {{0,1},{1,2},{2,3},{3,0},{0,2},{1,3}};
-    for (int e = 0; e < (k % 2 ? 5 : 6); e++) { GVec v; v.from = ed[e][0]; v.to = ed[e][1]; v.L = lfac(); s.vecs.push_back(v); }
-    for (size_t i = 0; i < s.vecs.size(); i++) s.order.push_back((int)i);
+    for (int e = 0; e < (k % 2 ? 5 : 6); e++) s.obs.push_back({0, ed[e][0], ed[e][1], lfac(), Q(1)});
+    for (size_t i = 0; i < s.obs.size(); i++) s.order.push_back((int)i);
+    specs.push_back(s);
+  }
+  for (int k = 0; k < (th ? 3 : 2); k++) {      // mixed observation types
+    static const char* st[] = {"faaa", "ffaa", "faca"};
+    GSpec s; s.name = std::string("equator4-mixed-") + st[k];
+    for (int i = 0; i < 4; i++) s.pts.push_back(eq_point("P" + std::to_string(i + 1), i, 10 + 7 * i + rng.range(0, 5), st[k][i]));
+    for (int e = 0; e < 4; e++) s.obs.push_back({0, ed[e][0], ed[e][1], lfac(), Q(1)});
+    s.obs.push_back({1, 2, 2, lfac(), Q(1)}); if (k != 1) s.obs.push_back({1, 1, 1, lfac(), Q(1)});
+    s.obs.push_back({2, 0, 2, QMat(), Q(3)}); s.obs.push_back({2, 1, 3, QMat(), Q(4)}); s.obs.push_back({2, 0, 1, QMat(), Q(5)}); s.obs.push_back({2, 3, 2, QMat(), Q(2)});
+    s.obs.push_back({3, 0, 1, QMat(), Q(2)}); s.obs.push_back({3, 2, 3, QMat(), Q(3)}); s.obs.push_back({3, 3, 1, QMat(), Q(2)});
+    s.obs.push_back({4, 2, 2, QMat(), Q(4)}); s.obs.push_back({4, 3, 3, QMat(), Q(2)});
+    for (size_t i = 0; i < s.obs.size(); i++) s.order.push_back((int)i);
     specs.push_back(s);
   }
   for (auto& s : specs) { auto sp = std::make_shared<GSpec>(s);
